@@ -866,12 +866,34 @@ func (d *driver) quiesce() {
 			return
 		}
 	}
+	deadlocked := func() bool {
+		// nothing is runnable although operations are alive: each waits for a keyed lock nobody will release
+		if d.liveCount() == 0 || len(d.runnable()) > 0 {
+			return false
+		}
+		ids := []int{}
+		for id, oi := range d.ops {
+			if !oi.op.Done && !oi.op.Dead {
+				ids = append(ids, id)
+			}
+		}
+		sort.Ints(ids)
+		for _, id := range ids {
+			oi := d.ops[id]
+			d.emit(M{"ev": "Hang", "op": id, "typ": oi.typ, "why": "deadlock: waits for a lock that is never released", "waits": d.pend(oi)})
+		}
+		d.hung = true
+		return true
+	}
 	drain()
-	if d.hung {
+	if d.hung || deadlocked() {
 		return
 	}
 	d.startResync()
 	drain()
+	if deadlocked() {
+		return
+	}
 	d.emit(M{"ev": "Quiesce"})
 }
 
